@@ -124,9 +124,9 @@ def uncertainty_set(r, z, tags, conic=False):
         tags.add('set:norm2'); tags.add('set:norm2-nonunit' if (rad != 1 or mult != 1) else 'set:norm2-unit')
         if r.random() < 0.4:
             cons.append(z <= z0 + 1.0); tags.add('set:ub')
-        if r.random() < 0.35:
+        if r.random() < 0.55:
             # a second ball of radius exactly 1 (both cone heads then meet in one row of the counterpart with coefficient 1)
-            if nz >= 2 and r.random() < 0.6:
+            if nz >= 2 and r.random() < 0.75:
                 # two plain unit balls on overlapping slices (no centre, no multiplier): cone columns with unit coefficients
                 k = int(r.integers(1, nz))
                 cons = [rso.norm(z[:k + 1]) <= 1, rso.norm(z[k - 1 if k > 1 else 0:]) <= 1] if nz > 2 else [rso.norm(z) <= 1, rso.norm(z[1:]) <= 1]
